@@ -155,31 +155,39 @@ theorem addLoop_spec (l : RS) : ∀ (b st en : Int), Chain b l → b < st → st
             · right; exact h
             · left; omega
 
-/-- **add, set semantics**: on a well-formed set, `add(start, end)` (`start ≤ end`) denotes the union with `[start, end)`. -/
-theorem mem_add (l : RS) (st en : Int) (hwf : WF l) (h : st ≤ en) (x : Int) :
+/-- **add, set semantics, every pair of arguments**: `add(start, end)` denotes the union with
+`[start, end)`; an empty or inverted range (`start ≥ end`) denotes the empty set and is a no-op. -/
+theorem mem_add_all (l : RS) (st en : Int) (hwf : WF l) (x : Int) :
     Mem (add l st en) x ↔ (Mem l x ∨ (st ≤ x ∧ x < en)) := by
   unfold add
-  by_cases he : st = en
-  · simp only [he, if_true]
+  by_cases he : st ≥ en
+  · rw [if_pos he]
     constructor
     · intro h; left; exact h
     · rintro (h | h)
       · exact h
       · omega
-  · simp only [he, if_false]
+  · rw [if_neg he]
     obtain ⟨b, hb⟩ := hwf
     have hc : Chain (Min.min b (st - 1)) l := chain_mono hb (by omega)
     exact (addLoop_spec l _ st en hc (by omega) (by omega)).2 x
 
-/-- **add preserves well-formedness** (sorted, non-empty, disjoint, non-adjacent). -/
-theorem wf_add (l : RS) (st en : Int) (hwf : WF l) (h : st ≤ en) : WF (add l st en) := by
+/-- **add preserves well-formedness** (sorted, non-empty, disjoint, non-adjacent), every pair of arguments. -/
+theorem wf_add_all (l : RS) (st en : Int) (hwf : WF l) : WF (add l st en) := by
   unfold add
-  by_cases he : st = en
-  · simp only [he, if_true]; exact hwf
-  · simp only [he, if_false]
+  by_cases he : st ≥ en
+  · rw [if_pos he]; exact hwf
+  · rw [if_neg he]
     obtain ⟨b, hb⟩ := hwf
     have hc : Chain (Min.min b (st - 1)) l := chain_mono hb (by omega)
     exact ⟨_, (addLoop_spec l _ st en hc (by omega) (by omega)).1⟩
+
+/-- **add, set semantics** (signature kept for importers; the order hypothesis is no longer needed). -/
+theorem mem_add (l : RS) (st en : Int) (hwf : WF l) (_h : st ≤ en) (x : Int) :
+    Mem (add l st en) x ↔ (Mem l x ∨ (st ≤ x ∧ x < en)) := mem_add_all l st en hwf x
+
+/-- **add preserves well-formedness** (signature kept for importers). -/
+theorem wf_add (l : RS) (st en : Int) (hwf : WF l) (_h : st ≤ en) : WF (add l st en) := wf_add_all l st en hwf
 
 /-! ### sub -/
 
@@ -202,12 +210,15 @@ def finish (pre : List Rg) (q : SubRes) : List Rg :=
     | none => pre ++ q.l
     | some f => removeranges (pre ++ q.l) f q.rt
 
-theorem sub_eq_finish (l : RS) (st en : Int) (hne : st ≠ en) :
+theorem sub_eq_finish (l : RS) (st en : Int) (hlt : st < en) :
     sub l st en = finish [] (subLoop st en l 0 none 0) := by
-  unfold sub; rw [if_neg hne]; rfl
+  unfold sub; rw [if_neg (by omega)]; rfl
+
+theorem sub_noop (l : RS) (st en : Int) (h : st ≥ en) : sub l st en = l := by
+  unfold sub; rw [if_pos h]
 
 theorem sub_empty (l : RS) (st : Int) : sub l st st = l := by
-  unfold sub; rw [if_pos rfl]
+  exact sub_noop l st st (Int.le_refl _)
 
 theorem finish_cons (pre : List Rg) (a : Rg) (q : SubRes) :
     finish pre ⟨a :: q.l, q.rf, q.rt, q.early⟩ = finish (pre ++ [a]) q := by
@@ -317,10 +328,10 @@ theorem finish_unmarked (st en : Int) (l : List Rg) : ∀ (b : Int) (pre : List 
 
 /-- `sub` as executed by the Go code (index bookkeeping, one final `removeranges`) equals
 the plain recursion on every well-formed set. -/
-theorem sub_eq_subS (l : RS) (st en : Int) (hwf : WF l) (hne : st ≠ en) :
+theorem sub_eq_subS (l : RS) (st en : Int) (hwf : WF l) (hlt : st < en) :
     sub l st en = subS st en l := by
   obtain ⟨b, hb⟩ := hwf
-  rw [sub_eq_finish l st en hne, finish_unmarked st en l b [] 0 hb rfl]; simp
+  rw [sub_eq_finish l st en hlt, finish_unmarked st en l b [] 0 hb rfl]; simp
 
 /-- `x` lies strictly inside a stored range. -/
 def Inside (l : RS) (x : Int) : Prop := ∃ r ∈ l, r.s < x ∧ x < r.e
@@ -418,25 +429,31 @@ theorem subS_spec (st en : Int) (l : RS) : ∀ (b : Int), Chain b l → st ≤ e
                   · exfalso; apply h; rw [inside_cons]; left; omega
                 exact ⟨h1, by show r.s < st; omega, by show st < en; exact hlt, by show en < r.e; omega, h3⟩
 
-/-- **sub, set semantics**: on a well-formed set, `sub(start, end)` (`start ≤ end`) denotes
-the difference with `[start, end)`. -/
-theorem mem_sub (l : RS) (st en : Int) (hwf : WF l) (h : st ≤ en) (x : Int) :
+/-- **sub, set semantics, every pair of arguments**: `sub(start, end)` denotes the difference with
+`[start, end)`; an empty or inverted range is a no-op. -/
+theorem mem_sub_all (l : RS) (st en : Int) (hwf : WF l) (x : Int) :
     Mem (sub l st en) x ↔ (Mem l x ∧ ¬ (st ≤ x ∧ x < en)) := by
-  by_cases he : st = en
-  · subst he; rw [sub_empty]
+  by_cases he : st ≥ en
+  · rw [sub_noop l st en he]
     exact ⟨fun hm => ⟨hm, by omega⟩, fun hm => hm.1⟩
-  · rw [sub_eq_subS l st en hwf he]
+  · rw [sub_eq_subS l st en hwf (by omega)]
     obtain ⟨b, hb⟩ := hwf
-    exact (subS_spec st en l b hb h).1 x
+    exact (subS_spec st en l b hb (by omega)).1 x
 
-/-- **sub preserves well-formedness** (sorted, non-empty, disjoint, non-adjacent) for every range,
-including the empty one. -/
-theorem wf_sub (l : RS) (st en : Int) (hwf : WF l) (h : st ≤ en) : WF (sub l st en) := by
-  by_cases he : st = en
-  · subst he; rw [sub_empty]; exact hwf
-  · rw [sub_eq_subS l st en hwf he]
+/-- **sub preserves well-formedness** (sorted, non-empty, disjoint, non-adjacent), every pair of arguments. -/
+theorem wf_sub_all (l : RS) (st en : Int) (hwf : WF l) : WF (sub l st en) := by
+  by_cases he : st ≥ en
+  · rw [sub_noop l st en he]; exact hwf
+  · rw [sub_eq_subS l st en hwf (by omega)]
     obtain ⟨b, hb⟩ := hwf
-    exact ⟨b, (subS_spec st en l b hb h).2 (Or.inl (by omega))⟩
+    exact ⟨b, (subS_spec st en l b hb (by omega)).2 (Or.inl (by omega))⟩
+
+/-- **sub, set semantics** (signature kept for importers; the order hypothesis is no longer needed). -/
+theorem mem_sub (l : RS) (st en : Int) (hwf : WF l) (_h : st ≤ en) (x : Int) :
+    Mem (sub l st en) x ↔ (Mem l x ∧ ¬ (st ≤ x ∧ x < en)) := mem_sub_all l st en hwf x
+
+/-- **sub preserves well-formedness** (signature kept for importers). -/
+theorem wf_sub (l : RS) (st en : Int) (hwf : WF l) (_h : st ≤ en) : WF (sub l st en) := wf_sub_all l st en hwf
 
 /-- Kept for importers (the exclusion hypothesis is no longer needed since the repair). -/
 theorem wf_sub_partial (l : RS) (st en : Int) (hwf : WF l) (h : st ≤ en)
@@ -849,6 +866,37 @@ theorem history_canonical (ops ops' : List Op) (h : ∀ op ∈ ops, Ordered op) 
   obtain ⟨hw, hm⟩ := history_correct ops h
   obtain ⟨hw', hm'⟩ := history_correct ops' h'
   exact canonical _ _ hw hw' (fun x => by rw [hm x, hm' x, hs x])
+
+/-- **C24 over ALL histories, all int64 (indeed all integer) arguments**, inverted pairs included:
+the list is well-formed and denotes exactly the mathematical set. -/
+theorem history_all (ops : List Op) : ∀ (l : RS) (S : Int → Prop), WF l → (∀ x, Mem l x ↔ S x) →
+    WF (run ops l) ∧ ∀ x, Mem (run ops l) x ↔ specRun ops S x := by
+  induction ops with
+  | nil => intro l S hwf hm; exact ⟨hwf, hm⟩
+  | cons op ops ih =>
+    intro l S hwf hm
+    show WF (run ops (applyOp l op)) ∧ ∀ x, Mem (run ops (applyOp l op)) x ↔ specRun ops (specStep S op) x
+    apply ih (applyOp l op) (specStep S op)
+    · cases op with
+      | add st en => exact wf_add_all l st en hwf
+      | sub st en => exact wf_sub_all l st en hwf
+    · intro x
+      cases op with
+      | add st en =>
+        show Mem (add l st en) x ↔ (S x ∨ (st ≤ x ∧ x < en))
+        rw [mem_add_all l st en hwf x, hm x]
+      | sub st en =>
+        show Mem (sub l st en) x ↔ (S x ∧ ¬ (st ≤ x ∧ x < en))
+        rw [mem_sub_all l st en hwf x, hm x]
+
+/-- From the empty set, for every operation sequence whatsoever. -/
+theorem history_all_from_empty (ops : List Op) :
+    WF (run ops []) ∧ ∀ x, Mem (run ops []) x ↔ specRun ops (fun _ => False) x :=
+  history_all ops [] (fun _ => False) ⟨0, trivial⟩ (fun x => by simp)
+
+/-- The old witnesses of the inverted-range report now satisfy the statement. -/
+example : run [.add 10 5] [] = [] := by decide
+example : run [.add 0 20, .sub 10 5] [] = [⟨0, 20⟩] := by decide
 
 /-- The literal statement of C24 (every op with `start ≤ end`). -/
 def HistoryStatement : Prop :=
